@@ -10,7 +10,7 @@ from .common import CheckError, log, scratch
 
 
 class IsaCfg:
-    def __init__(self, name, module, cpus, unit_bytes=1, big=False, header=(), covers=""):
+    def __init__(self, name, module, cpus, unit_bytes=1, big=False, header=(), covers="", addr_step=1):
         self.name = name          # family name used in evidence
         self.module = module      # TLA+ generator module
         self.cpus = cpus          # list of (TLA+ Cpu constant, asl CPU name)
@@ -18,6 +18,7 @@ class IsaCfg:
         self.big = big            # byte order of a multi-byte unit in emit events / code file
         self.header = list(header)
         self.covers = covers
+        self.addr_step = addr_step    # address units per encoding unit (2 for 16-bit words in a byte-addressed segment)
 
 
 def gen_cases(cfg, cpu, k, salt, extra_consts="", timeout=600, workers=1):
